@@ -39,7 +39,7 @@ RULE = ('(a) seeded schedules (uniform / jittered / gapped IMU, time_step 0.1x i
 ASSUMPTIONS = ['F = 0.05 sd is an ABSOLUTE allowance (the one place an absolute number is used): piecewise-constant F over a covariance step, increment '
                'cross-terms ignored by the bias model and the neglected terms of C04 leave a first-order, scale-independent remainder (calibration: <= 0.022 sd over 600 ladders) in '
                'this workload domain (time_step <= 0.5 s, IMU step 12.5 ms, horizon <= 40 s)']
-REQUIRED_OBS = ['sd_steps_decided', 'zero_data_sd_compared', 'transparent_runs', 'transparent_with_outside_samples', 'transparent_with_default_measurements', 'ladder_runs', 'ladders_decided',
+REQUIRED_OBS = ['transparent_with_small_capacity', 'sd_steps_decided', 'zero_data_sd_compared', 'transparent_runs', 'transparent_with_outside_samples', 'transparent_with_default_measurements', 'ladder_runs', 'ladders_decided',
                 'rerun_checks', 'scale_misal_ladders', 'two_d_ladders']
 REQUIRED_CLASSES = {'all': ['transparent', 'ladder', 'rerun']}
 F_ALLOW = 0.05
@@ -100,6 +100,11 @@ def run_transparent(case, out, obs):
     initial = sim.perturb_pva(S['traj'].iloc[0], err)
     if not S['with_altitude'] and rng.random() < 0.6:
         initial['VD'] = 0.0          # see the zero-data comparison below
+    # a small buffer capacity of the real Integrator class, so that growth happens in the middle of the filter run (the filter integrates in
+    # batches, plain strapdown in one call): transparency must hold across growth boundaries as well
+    default_size = strapdown.Integrator.INITIAL_SIZE
+    strapdown.Integrator.INITIAL_SIZE = int(rng.choice([3, 8, 17, default_size]))
+    obs['transparent_with_small_capacity'] = int(strapdown.Integrator.INITIAL_SIZE != default_size)
     events.start()
     try:
         r = filters.run_feedback_filter(initial, 5, 1, 0.5, 1.0, S['increments'], S['gyro_model'], S['accel_model'], measurements=meas,
@@ -107,8 +112,11 @@ def run_transparent(case, out, obs):
     except Exception as e:
         import traceback
         events.stop()
+        strapdown.Integrator.INITIAL_SIZE = default_size
         out.append(vio('exception', f'{type(e).__name__}: {e}', tb=traceback.format_exc()[-1200:], schedule=S['describe']))
         return dict(schedule=S['describe'])
+    finally:
+        strapdown.Integrator.INITIAL_SIZE = default_size
     ev = events.stop()
     I = strapdown.Integrator(initial, S['with_altitude'])
     # plain strapdown: the recorder is off, so this call leaves no event
@@ -182,7 +190,7 @@ def ladder_config(seed):
                 e_pos=(rng.uniform(-1, 1, 3)).tolist(), e_vel=(rng.uniform(-1, 1, 3)).tolist(), e_att=(rng.uniform(-1, 1, 3)).tolist(),
                 gb=(rng.uniform(-1, 1, 3) * 1e-4).tolist(), ab=(rng.uniform(-1, 1, 3) * 0.03).tolist(),
                 smat=(rng.uniform(-1, 1, (3, 3)) * 1e-3).tolist(), nseed=int(rng.integers(0, 2 ** 31)),
-                offgrid=bool(rng.integers(0, 2)), dense=bool(rng.random() < 0.4), scale0=float(10 ** rng.uniform(-0.15, 0.18)))
+                offgrid=bool(rng.integers(0, 2)), dense=bool(rng.random() < 0.4), shared=bool(rng.random() < 0.5), scale0=float(10 ** rng.uniform(-0.15, 0.18)))
 
 
 def ladder_run(cfg, s):
@@ -199,12 +207,16 @@ def ladder_run(cfg, s):
     t = np.asarray(traj.index, float)
     meas = []
     k = 0
+    prev_e = np.array([])
     for j, cls in enumerate(cfg['sensors']):
         every = (2.0 + j * 0.75) if not cfg.get('dense') else (0.3 + 0.2 * j)      # dense: fixes cut most covariance steps short
         e = np.arange(1.0 + 0.4 * j, t[-1] - 0.5, every)
         e = t[np.searchsorted(t, e)]
         if cfg['offgrid']:
             e = e + DT * 0.37
+        if j > 0 and cfg.get('shared') and len(prev_e):
+            e = np.unique(np.r_[e, prev_e[::2]])           # epochs shared with the previous sensor (one receiver, two observables)
+        prev_e = e
         ref = transform.resample_state(traj, e)
         nn = nrm[k:k + len(e)]
         k += len(e)
